@@ -37,7 +37,7 @@ MON = {"fs-read": 64, "fs-write": 32, "fs-temp": 1024, "net-connect": 4, "net-li
 IGNORED_MON = {"umask", "proc-signal"}   # not capabilities of the statement (signalling an owned child is not process creation)
 # fixed device the runtime reads for os/cryptorand; not a path of the program's choosing (reported, not flagged)
 EXEMPT_ARGS = {"/dev/urandom"}
-WITNESS_BIT = {"ffi-use": 2048, "ffi-define": 16, "ffi-jit": 4096, "env": 256}
+WITNESS_BIT = {"ffi-use": 2048, "ffi-define": 16, "ffi-jit": 4096, "env": 256, "signal": 8192}
 
 # functions that must not be called blindly (printed in the evidence)
 DENYLIST = {
